@@ -441,7 +441,7 @@ class Ctx:
             self.inconclusive("vacuity: actions never taken in model run: %s" % missing)
 
     # ---- Go driver
-    def go_driver(self, pkg, env=None, timeout=1200, race=False, run="TestDriver", tags="verif", extra=None):
+    def go_driver(self, pkg, env=None, timeout=1200, race=False, run="TestDriver", tags="verif", extra=None, keep=None):
         """go test -tags verif ./drivers/<pkg>; the driver writes a JSON report to $VERIF_OUT."""
         gen_go_mod()
         out_path = os.path.join(self.work, "driver_%s_%d.json" % (pkg.replace("/", "_"), len(self.cov["drivers"])))
@@ -486,6 +486,8 @@ class Ctx:
             return rep or {"violations": [], "summary": {}}
         # standard report handling
         for v in (rep.get("violations") or []):
+            if keep is not None and not keep(v.get("signature", "")):
+                continue   # belongs to another property decided by the same driver
             self.violation(v.get("signature", "unspecified"), v.get("what", ""), v.get("replay"))
         for s in (rep.get("samples") or [])[:4]:
             self.sample(s)
